@@ -530,12 +530,63 @@ def spec_interacting():
                 summary=SUMMARY_NET + summ, argsets={}, only_summary=True)
 
 
+def _climate_from_data(cls_name, knob, values, extra_kw=None):
+    """spec builder for climate networks that derive their similarity from a ClimateData
+    object and can re-derive it on a live object (set_<knob>)"""
+    def spec():
+        import pyunicorn.climate as C
+        from pyunicorn.core import GeoGrid
+        cls = getattr(C, cls_name)
+
+        def make(rng):
+            n, T = rng.choice([5, 6]), 36
+            nprng = np.random.RandomState(rng.randrange(2 ** 31))
+            obs = nprng.randn(T, n)
+            for j in range(1, n):
+                if rng.random() < 0.5:
+                    obs[:, j] += rng.choice([0.5, 1.0, 2.0]) * obs[:, rng.randrange(j)]
+            lat = np.array([rng.choice([-40., -10., 0., 25., 50.]) + i for i in range(n)])
+            lon = np.array([rng.choice([0., 40., 100., 160.]) + 3 * i for i in range(n)])
+            grid = GeoGrid(np.arange(float(T)), lat, lon, silence_level=3)
+            nl = rng.random() < 0.5
+            v = rng.choice(values)
+            o = cls(C.ClimateData(observable=obs.copy(), grid=grid, time_cycle=12, silence_level=3),
+                    threshold=0.4, non_local=nl, silence_level=3, **{knob: v}, **(extra_kw or {}))
+            o._verif_obs, o._verif_grid, o._verif_knob = obs, grid, v
+            return o
+
+        def twin(o):
+            data = C.ClimateData(observable=o._verif_obs.copy(), grid=o._verif_grid,
+                                 time_cycle=12, silence_level=3)
+            return cls(data, threshold=o.threshold(), non_local=o.non_local(), silence_level=3,
+                       node_weight_type=o.node_weight_type, **{knob: o._verif_knob},
+                       **(extra_kw or {}))
+
+        def flip(o, rng):
+            v = rng.choice([x for x in values if x != o._verif_knob])
+            getattr(o, "set_" + knob)(v)
+            o._verif_knob = v
+        mut = {
+            "set_threshold": lambda o, rng: o.set_threshold(
+                rng.choice([t for t in (0.25, 0.35, 0.5, 0.6) if t != o.threshold()])),
+            "set_non_local": lambda o, rng: o.set_non_local(not o.non_local()),
+            "set_" + knob: flip,
+        }
+        return dict(cls=cls, make=make, twin=twin, mutators=mut,
+                    summary=SUMMARY_NET + ["threshold()", "similarity_measure()", "non_local()"],
+                    argsets={})
+    return spec
+
+
 SPECS = {
     "Network": spec_network, "GeoNetwork": spec_geonetwork, "ClimateNetwork": spec_climatenetwork,
     "RecurrencePlot": spec_recurrenceplot, "RecurrenceNetwork": spec_recurrencenetwork,
     "ResNetwork": spec_resnetwork, "ClimateData": spec_climatedata, "Surrogates": spec_surrogates,
     "VisibilityGraph": spec_visibility, "JointRecurrenceNetwork": spec_jointrecurrencenetwork,
     "CrossRecurrencePlot": spec_crossrecurrenceplot, "InteractingNetworks": spec_interacting,
+    "TsonisClimateNetwork": _climate_from_data("TsonisClimateNetwork", "winter_only", [False, True]),
+    "HavlinClimateNetwork": _climate_from_data("HavlinClimateNetwork", "max_delay", [2, 4]),
+    "HilbertClimateNetwork": _climate_from_data("HilbertClimateNetwork", "directed", [False, True]),
 }
 
 SKIP_QUERIES = {"cache_clear", "_nsi_betweenness"}
@@ -604,6 +655,92 @@ def query_variants(cls, mname, argsets):
     return out
 
 
+# ---------------------------------------------------------------------------------------
+# dynamic validation of the translator's tables (the trusted component of this check)
+# ---------------------------------------------------------------------------------------
+
+@contextlib.contextmanager
+def traced(cls, target, reads, writes):
+    """record attribute loads / stores on the object `target` (an instance of `cls`) while the
+    block runs; other instances of the class (sub-networks built by a measure) are not traced"""
+    og, os_ = cls.__getattribute__, cls.__setattr__
+    props = {n for c in cls.__mro__ for n, v in vars(c).items() if isinstance(v, property)}
+
+    def ga(self, name):
+        if self is target and name not in props:
+            reads.add(name)
+        return og(self, name)
+
+    def sa(self, name, value):
+        if self is target and name not in props:
+            writes.add(name)
+        return os_(self, name, value)
+    cls.__getattribute__, cls.__setattr__ = ga, sa
+    try:
+        yield
+    finally:
+        # restore exactly what the class had (inherited slots are removed again)
+        for nm, orig in (("__getattribute__", og), ("__setattr__", os_)):
+            if nm in cls.__dict__:
+                try:
+                    delattr(cls, nm)
+                except AttributeError:
+                    pass
+            if getattr(cls, nm) is not orig:
+                setattr(cls, nm, orig)
+
+
+def sandwich(ctx, cname, spec, table, usable):
+    """observed attribute writes of every mutator and observed field reads of every cached
+    method must be contained in what the translator derived from the source"""
+    cls = spec["cls"]
+    rng = ctx.rng
+    muts = table.get("mutators", {})
+    meths = table.get("methods", {})
+    universe = set()
+    for o in muts.values():
+        universe |= set(o["writes"])
+    universe = {u for u in universe if "." not in u and u != "silence_level"}
+    bad = []
+    nchecked = 0
+    for oname, mut in spec["mutators"].items():
+        if oname not in muts:
+            continue
+        obj = quiet(spec["make"], rng)
+        r, w = set(), set()
+        try:
+            with traced(cls, obj, r, w):
+                quiet(mut, obj, rng)
+        except Exception:  # noqa
+            continue
+        static = set(muts[oname]["writes"]) | set(muts[oname]["bumps"]) | set(muts[oname]["resets"])
+        # (counters: `self._mut_x = getattr(self, "_mut_x", 0)` is a value-preserving store;
+        # bumps are validated by the hit/miss correspondence)
+        extra = {x for x in w if not x.startswith(("_verif", "_mut_")) and x not in static
+                 and x not in ("silence_level",)}
+        nchecked += 1
+        if extra:
+            bad.append(f"{cname}.{oname}: writes {sorted(extra)} not in the static table")
+    for m, kw in usable:
+        if kw or m not in meths:
+            continue
+        obj = quiet(spec["make"], rng)
+        r, w = set(), set()
+        try:
+            getattr(cls, m).cache_clear() if hasattr(getattr(cls, m), "cache_clear") else None
+            with traced(cls, obj, r, w):
+                quiet(getattr(obj, m))
+        except Exception:  # noqa
+            continue
+        static = set(meths[m]["reads"]) | set(meths[m]["key"])
+        seen = {x for x in r if x in universe}
+        extra = {x for x in seen if x not in static}
+        nchecked += 1
+        if extra:
+            bad.append(f"{cname}.{m}: reads {sorted(extra)} not in the static read set")
+    return nchecked, bad
+
+
 def unstable(spec, obj, m, kw, fresh):
     """two *fresh* objects disagree with each other: the measure is not a function of
     the inputs on this input (random solver start vectors, degenerate eigenspaces)"""
@@ -628,6 +765,7 @@ def run(ctx):
                                          "mutators": len(t.get("mutators", {}))}
                                      for c, t in tables.items()}
     hist_reqs, hist_impl, hist_meta = [], [], []
+    sw_checked, sw_bad = 0, []
 
     for cname, mk in SPECS.items():
         spec = mk()
@@ -716,6 +854,10 @@ def run(ctx):
                              f"reports {brief(b)}",
                              {"class": cname, "attribute": expr, "mutator": oname,
                               "observed": brief(a), "fresh": brief(b)})
+        # ---- translator sandwich -----------------------------------------------------------
+        nck, bad_sw = sandwich(ctx, cname, spec, t, usable)
+        sw_checked += nck
+        sw_bad += bad_sw
         # ---- hit/miss correspondence: a fresh object per (query, mutator) -------------------
         for oname, mut in spec["mutators"].items():
             if oname not in onames:
@@ -790,6 +932,9 @@ def run(ctx):
                              {"class": cname, "attribute": expr, "history": trace,
                               "observed": brief(a), "fresh": brief(b)})
 
+    ctx.obligation(f"translator sandwich: observed attribute writes of mutators and field reads of "
+                   f"cached methods are contained in the static tables ({sw_checked} traced calls)",
+                   "translator", not sw_bad, "\n".join(sw_bad[:12]))
     # ---- correspondence: model hit/miss prediction vs real cache_info --------------------
     model = common.driver(ctx.pid, hist_reqs)
     bad = []
